@@ -59,6 +59,15 @@ class World:
                 self.T[newt[0]] = r
                 del r
             del out, xs
+        elif k == "inplace":
+            t = self.T[ev["t"]]
+            v = self.operand(ev["val"])
+            try:
+                t[...] = v
+            except ValueError as e:   # natively read-only target
+                del e
+            assert self.T[ev["t"]] is t
+            del t, v
         elif k == "view":
             self.T[newt[0]] = self.T[ev["t"]][...]
         elif k == "fail":
